@@ -110,10 +110,11 @@ def do_run(ids, tier="quick", all_checks=False):
             results[sid] = res
             print(sid, json.dumps(res))
             # keep the last observed outcome next to the seeded change
-            with locked(SEEDED / "results.json"):
-                allres = json.loads((SEEDED / "results.json").read_text()) if (SEEDED / "results.json").exists() else {}
+            resfile = Path(os.environ.get("SEEDED_RESULTS", SEEDED / "results.json"))     # (runs under other seeds log elsewhere)
+            with locked(resfile):
+                allres = json.loads(resfile.read_text()) if resfile.exists() else {}
                 allres.setdefault(sid, {}).update({p: ("caught: " + r["violation"].split(" replay=")[0] + (" (no-failing-input-found)" if "no-failing-input" in r["violation"] else "")) if r["rc"] == 1 else ("exit 2" if r["rc"] == 2 else "not caught") for p, r in res.items()})
-                (SEEDED / "results.json").write_text(json.dumps(allres, indent=1, sort_keys=True) + "\n")
+                resfile.write_text(json.dumps(allres, indent=1, sort_keys=True) + "\n")
         finally:
             drop(wt)
     return results
